@@ -547,3 +547,12 @@ def ecc_ephemeral(vc):
         vc.prove("two-calls-use-different-pairs", r1[1:65] != r2[1:65])
         vc.prove("block=04+ephemeral-public+ciphertext", r1[0:1] == b"\x04" and len(r1) == 81 and
                  r1[1:65] == gens[0].public_key.to_raw_bin_fmt())
+
+
+# "wraps the same session key": what an ECC block wraps is defined by the documented scheme (AES key = SHA-256 of the shared
+# x-coordinate as 32 bytes).  The width of that secret and the agreement with an independent unwrap are proved under C09;
+# they are obligations here too - a block that only the library's own reader can open does not wrap THE session key.
+from pyvc.harness import reuse as _reuse
+from contracts import C09 as _C09x  # noqa: E402,F401
+_reuse("C09/compute_dh_secret=x-as-32-bytes", "C07/ecc-block.secret=x-as-32-bytes(leading-zeros-kept)")
+_reuse("C09/independent-ecies", "C07/ecc-block.independent-unwrap-gives-the-file-key")
